@@ -1301,7 +1301,14 @@ class SchemaValidator:
 
         if check_nested_scopes:
 
+            checked_thread_group_refs = []
+
             def check_nested_scopes_recursive(thread_group_ref):
+                if thread_group_ref in checked_thread_group_refs:
+                    # thread groups that (through duplicate ids) contain themselves
+                    return None
+
+                checked_thread_group_refs.append(thread_group_ref)
                 for sub_thread_group_id in self._thread_groups[
                     thread_group_ref
                 ].sub_thread_group_ids:
